@@ -289,5 +289,13 @@ pub fn gen(tier: &str, seed: u64) -> Vec<String> {
         let h = wild_history(&mut r, &keys, n_ev);
         lines.push(mk_kline("KAN", false, &cfg, &h));
     }
+    // chv2: whole-grammar configurations with a `defchordsv2` table
+    let mut r2 = Rng::new(seed ^ 0xC02C2);
+    for i in 0..(if thorough { 6000 } else { 500 }) {
+        let (cfg, keys) = crate::chv2gen::gen_full_cfg_chv2(&mut r2, true);
+        let n_ev = if i % 6 == 0 { r2.range(70, 200) } else { r2.range(5, 40) } as usize;
+        let h = wild_history(&mut r2, &keys, n_ev);
+        lines.push(mk_kline("KAN", false, &cfg, &h));
+    }
     lines
 }
